@@ -115,7 +115,11 @@ class TokenFile:
     def delete(self):
         if self.path.is_file():
             logging.debug("Deleting token file %s", self.path)
-            self.path.unlink()
+            try:
+                self.path.unlink()
+            except FileNotFoundError:
+                # Deleted in the meantime (e.g. by the job watcher thread)
+                pass
 
     def watch(self):
         """Watch the matching process"""
